@@ -63,8 +63,8 @@ def gen_time(rng):
 class C18(CheckBase):
     id = 'C18'
     title = 'Editing a SINEX solution keeps exactly the remaining parameters and covariance'
-    quick_runs = 1700
-    thorough_runs = 60000
+    quick_runs = 1900
+    thorough_runs = 60000 + 2 * (3 * 256 + 6 * 32)
     quick_budget_s = 60
     thorough_budget_s = 1200
     run_timeout = 120
@@ -106,6 +106,12 @@ class C18(CheckBase):
         import geodepy.gnss as gnss
         self.gnss = gnss
         self.real_datetime = gnss.datetime
+        self.gnss_file = gnss.__file__
+        from detsim.sched import wrap_module_locks
+        wrap_module_locks([gnss])          # a lock the readers may own must never block the baton holder
+
+    def is_sut_file(self, fn):
+        return fn == self.gnss_file
 
     # ---------------------------------------------------------------- generate
     N_SUBSET_SWEEP = 20
@@ -150,12 +156,56 @@ class C18(CheckBase):
                {'kind': 'clock_set', 't': t}, {'kind': 'remove_matrixzeros', 't2': None}]
         return ops
 
+    # reader race sweep: caller 0 is stopped `frac` of the way through its call (length measured in a forked
+    # child, so that nothing is warmed up), caller 1 then runs to completion (or, `diag`, to the same point
+    # of its own call first).  The readers are the first thing that runs in the process: first-use paths.
+    READER_KINDS = ['read_estimate', 'read_matrix', 'read_sites']
+    RACE_POINTS_QUICK = 48
+    RACE_POINTS_THOROUGH = 256
+    N_RACE_SWEEP = 3 * RACE_POINTS_QUICK + 6 * 4          # same-kind pairs densely, mixed pairs sparsely
+    N_RANDOM_THOROUGH = 60000
+
+    def _race_trace(self, rng, j, points, mixed_points):
+        K = self.READER_KINDS
+        if j < 3 * points:
+            a = b = K[j // points]
+            frac = (j % points + 0.5) / points
+        else:
+            jj = j - 3 * points
+            pairs = [(x, y) for x in K for y in K if x != y]
+            a, b = pairs[(jj // mixed_points) % len(pairs)]
+            frac = (jj % mixed_points + rng.random()) / mixed_points
+        spec = sx.gen_spec(rng)
+        while len(spec['stations']) > 2:
+            spec = sx.gen_spec(rng)
+        same_file = rng.random() < 0.7
+        ops = [{'kind': 'gen', 'spec': spec, 'name': 'race.snx'}]
+        if not same_file:
+            ops.append({'kind': 'gen', 'spec': sx.gen_spec(rng), 'name': 'race2.snx'})
+        ops.append({'kind': 'concurrent_reads', 'threads': 2, 'seed': rng.getrandbits(32), 'mode': 'preempt',
+                    'frac': round(frac, 5), 'diag': rng.random() < 0.3, 'jobs': [[a, 'race.snx'], [b, 'race.snx' if same_file else 'race2.snx']]})
+        ops.append({'kind': 'concurrent_reads', 'threads': 2, 'seed': rng.getrandbits(32), 'mode': 'preempt',
+                    'frac': round(rng.random(), 5), 'diag': False, 'jobs': [[b, 'race.snx'], [a, 'race.snx']]})
+        ops += [{'kind': 'read_estimate'}, {'kind': 'read_matrix'}, {'kind': 'read_sites'}]
+        return ops
+
     def generate(self, rng, i, tier):
-        if i < self.N_SUBSET_SWEEP + self.N_TIME_SWEEP:
+        n_sw = self.N_SUBSET_SWEEP + self.N_TIME_SWEEP
+        if i < n_sw:
             ops = self._sweep_trace(rng, i)
             for j, o in enumerate(ops):
                 o['id'] = j
             return {'property': 'C18', 'ops': ops, 'faults': [], 'sweep': True}
+        race = None
+        if i < n_sw + self.N_RACE_SWEEP:
+            race = self._race_trace(rng, i - n_sw, self.RACE_POINTS_QUICK, 4)
+        elif tier == 'thorough' and i >= self.N_RANDOM_THOROUGH:
+            race = self._race_trace(rng, (i - self.N_RANDOM_THOROUGH) % (3 * self.RACE_POINTS_THOROUGH + 6 * 32),
+                                    self.RACE_POINTS_THOROUGH, 32)
+        if race is not None:
+            for j, o in enumerate(race):
+                o['id'] = j
+            return {'property': 'C18', 'ops': race, 'faults': [], 'sweep': True}
         ops = []
         spec = sx.gen_spec(rng)
         ops.append({'kind': 'gen', 'spec': spec, 'name': rng.choice(['in.snx', '/data/AUS0OPSSNX.snx', 'sub/dir/x.SNX', 'a b.snx'])})
@@ -179,14 +229,20 @@ class C18(CheckBase):
                 ops.append({'kind': 'remove_velocity', 't2': gen_time(rng)})
             elif k < 0.7:
                 ops.append({'kind': 'remove_matrixzeros', 't2': gen_time(rng)})
+            elif k < 0.77:
+                # the edited file becomes the next input: under a new name, or moved over the input it came from
+                ops.append({'kind': 'chain', 'name': 'chained%d.snx' % len(ops) if rng.random() < 0.7 else '='})
             elif k < 0.8:
-                ops.append({'kind': 'chain', 'name': 'chained%d.snx' % len(ops)})
-            elif k < 0.87:
+                # the input is produced again in place (same path, same size; same time stamp if the clock stands)
+                ops.append({'kind': 'regen', 'seed': rng.getrandbits(32), 'keep_mtime': rng.random() < 0.5})
+            elif k < 0.86:
                 ops.append({'kind': 'read_estimate'})
-            elif k < 0.94:
+            elif k < 0.92:
                 ops.append({'kind': 'read_matrix'})
-            else:
+            elif k < 0.97:
                 ops.append({'kind': 'read_sites'})
+            else:
+                ops.append({'kind': 'concurrent_reads', 'threads': rng.choice([2, 2, 3, 4]), 'seed': rng.getrandbits(32)})
             if rng.random() < 0.06:
                 spec2 = sx.gen_spec(rng)
                 ops.append({'kind': 'gen', 'spec': spec2, 'name': 'in%d.snx' % len(ops)})
@@ -219,6 +275,8 @@ class C18(CheckBase):
         fs = SimFS(cwd='/sim/work')
         clock = SimClock()
         gnss.open = fs.open
+        fs.now = lambda: (clock.t - _dt.datetime(1970, 1, 1)).total_seconds()    # time stamps: read without a clock-read event
+        saved_os = fs.install_os_seam(gnss)
         saved_clock = install_clock_seam(gnss, clock)
         if not saved_clock:
             raise kernel.HarnessError('clock seam not found: geodepy.gnss has no module-level reference to datetime / time')
@@ -247,6 +305,7 @@ class C18(CheckBase):
         finally:
             gnss.open = open
             restore_seam(gnss, saved_clock)
+            restore_seam(gnss, saved_os)
         for t in clock.reads:
             clockset['sod'].add(t.hour * 3600 + t.minute * 60 + t.second)
             clockset['days'].add(t.date().isoformat())
@@ -292,7 +351,8 @@ class C18(CheckBase):
             except Exception:
                 return
             fs.put(op['name'], text.encode())
-            st.update(cur=op['name'], model=model, spec=spec, depth=0, pending=None, omits_zero=False)
+            st.update(cur=op['name'], model=model, spec=spec, depth=0, pending=None, omits_zero=False, gen_name=op['name'])
+            st.setdefault('library', {})[op['name']] = model
             log.add('gen', op['name'], len(text))
             hdr = text.split('\n', 1)[0]
             if spec['created'] == spec['start']:
@@ -302,6 +362,26 @@ class C18(CheckBase):
                 bump('probe:old_count_digits_occur_elsewhere_in_header')
             if 'V' in hdr[:68]:
                 bump('probe:header_contains_another_V')
+            return
+        if kind == 'regen':
+            if st.get('spec') is None or st.get('gen_name') is None:
+                return
+            spec = sx.perturb_spec(st['spec'], op['seed'])
+            model = sx.Solution(spec)
+            try:
+                text = sx.write_sinex(spec, model)
+            except Exception:
+                return
+            same_size = fs.exists(st['gen_name']) and len(fs.get(st['gen_name'])) == len(text.encode())
+            old_stamp = fs.mtime.get(fs.abspath(st['gen_name']))
+            same_stamp = old_stamp is not None and (op.get('keep_mtime') or old_stamp == fs.now())
+            fs.put(st['gen_name'], text.encode(), in_place=True, mtime=old_stamp if op.get('keep_mtime') else None)
+            st.update(cur=st['gen_name'], model=model, spec=spec, depth=0, pending=None, omits_zero=False)
+            st.setdefault('library', {})[st['gen_name']] = model
+            log.add('regen', st['gen_name'], len(text))
+            bump('probe:input_rewritten_in_place')
+            if same_size and same_stamp:
+                bump('probe:input_rewritten_in_place_same_size_same_mtime')
             return
         if kind == 'clock_set':
             clock.set(_dt.datetime.fromisoformat(op['t']))
@@ -321,18 +401,25 @@ class C18(CheckBase):
         if kind == 'chain':
             if st['pending'] is None or not fs.exists('output.snx'):
                 return
-            fs.rename('output.snx', op['name'])
-            st['cur'] = op['name']
+            name = st['cur'] if op['name'] == '=' else op['name']
+            if op['name'] == '=':
+                bump('probe:output_moved_over_its_input')
+            fs.rename('output.snx', name)
+            st['cur'] = name
             st['model'] = st['pending'][0]
+            st.setdefault('library', {})[name] = st['model']
             st['omits_zero'] = st['pending'][1]
             st['pending'] = None
             st['depth'] += 1
             if st['depth'] >= 2:
                 bump('probe:chain_depth_ge_2')
-            log.add('chain', op['name'])
+            log.add('chain', name)
             return
         if kind.startswith('read_'):
             self._reader(kind, st, fs, V, bump, log, sigset)
+            return
+        if kind == 'concurrent_reads':
+            self._concurrent_reads(op, st, fs, V, bump, log, sigset)
             return
         # ------------------------------------------------------------------ edits
         if kind == 'remove_velocity' and not model.velocities:
@@ -593,6 +680,123 @@ class C18(CheckBase):
         if fs.abspath(st['cur']) not in [p for p, m in fs.opens[nopens0:]]:
             raise kernel.HarnessError('storage seam bypassed: %s returned without opening its input through geodepy.gnss.open' % kind)
         log.add(kind, len(got), short_hash(repr(got), 12))
+        self._judge_reader(kind, got, model, V, bump)
+
+    def _call_reader(self, kind, name):
+        gnss = self.gnss
+        if kind == 'read_estimate':
+            return gnss.read_sinex_estimate(name)
+        if kind == 'read_matrix':
+            return gnss.read_sinex_matrix(name)
+        return gnss.read_sinex_sites(name)
+
+    def _concurrent_reads(self, op, st, fs, V, bump, log, sigset):
+        """Several callers read at the same time (2-4 baton threads, seeded scheduler, pre-emption at
+        every line of geodepy/gnss.py): each must get exactly what a lone caller gets."""
+        import random
+        from detsim.sched import Sched, draw_decider, SimCancelled, StepBudgetExceeded
+        r = random.Random(op['seed'])
+        lib = st.setdefault('library', {})
+        names = sorted(n for n in lib if fs.exists(n))
+        if not names:
+            return
+        T = op['threads']
+        jobs = []
+        for t in range(T):
+            name = st['cur'] if (st['cur'] in lib and r.random() < 0.6) else r.choice(names)
+            jobs.append((r.choice(['read_estimate', 'read_matrix', 'read_sites']), name))
+        if r.random() < 0.5:
+            jobs = [jobs[0]] * T                 # the same call from every caller
+        if op.get('jobs'):
+            jobs = [tuple(j) for j in op['jobs'] if j[1] in lib and fs.exists(j[1])]
+            if len(jobs) != T:
+                return
+        if op.get('mode') == 'preempt':
+            from detsim.sched import Replay
+            L = self._reader_length(jobs[0])
+            pnt = 1 + int(op['frac'] * max(L, 1))
+            decider = Replay([[0, pnt, 1]] + ([[1, pnt, 0]] if op.get('diag') else []))
+            bump('reader_race_sweep_runs')
+        else:
+            decider = draw_decider(r, T, horizon=4000)
+        sched = Sched(T, decider, log, self.is_sut_file, max_steps=3000000)
+        out = [None] * T
+
+        def body(t):
+            def run(tid):
+                sched.begin_op(tid, t)
+                try:
+                    out[t] = ('ok', self._call_reader(*jobs[t]))
+                except (SimCancelled, StepBudgetExceeded):
+                    raise
+                except Exception as e:
+                    out[t] = ('raised', e)
+                finally:
+                    sched.end_op(tid)
+            return run
+        sched.run([body(t) for t in range(T)])
+        bump('concurrent_read_batches')
+        bump('context_switches', sched.nswitch)
+        st['judged'] += 1
+        for t, (kind, name) in enumerate(jobs):
+            model = lib[name]
+            sigset.add('concurrent|%s|%s|T%d' % (kind, self._layout(model), T))
+            status, got = out[t] if out[t] is not None else ('raised', RuntimeError('no result'))
+            if status == 'raised':
+                log.add('cread', t, kind, 'raised', type(got).__name__)
+                V('reader-raised', 'concurrent/' + kind, {'exc': type(got).__name__, 'msg': str(got)[:300], 'threads': T})
+                continue
+            log.add('cread', t, kind, len(got), short_hash(repr(got), 12))
+            self._judge_reader(kind, got, model, lambda o, site, d: V(o, 'concurrent/' + site, dict(d, threads=T)), bump)
+
+    def _reader_length(self, job):
+        """line events of one reader call made alone - measured in a forked child so that the measuring call
+        leaves nothing behind (a table built on first use must still be unbuilt when the race starts)"""
+        import os
+        import sys
+        rd, wr = os.pipe()
+        pid = os.fork()
+        if pid == 0:
+            n = [0]
+            code = 0
+            try:
+                os.close(rd)
+                fn = self.gnss_file
+
+                def g(frame, event, arg):
+                    if frame.f_code.co_filename != fn:
+                        return None
+                    return l
+
+                def l(frame, event, arg):
+                    if event == 'line':
+                        n[0] += 1
+                    return l
+                sys.settrace(g)
+                try:
+                    self._call_reader(*job)
+                except Exception:
+                    pass
+                sys.settrace(None)
+                os.write(wr, b'%d' % n[0])
+            except BaseException:
+                code = 1
+            os._exit(code)
+        os.close(wr)
+        data = b''
+        while True:
+            chunk = os.read(rd, 64)
+            if not chunk:
+                break
+            data += chunk
+        os.close(rd)
+        os.waitpid(pid, 0)
+        try:
+            return int(data)
+        except ValueError:
+            return 0
+
+    def _judge_reader(self, kind, got, model, V, bump):
         per = model.per
         if kind == 'read_estimate':
             if len(got) != len(model.stations):
